@@ -22,7 +22,8 @@ RULE = ("case = one generated netlist; every hierarchical wire and every hierarc
         "get_hports(hwire); then pins are moved between wires (two rounds) and every question is asked again in the same process; distinct = shape hash; non-trivial = some net class spans >=2 hierarchy levels and some start "
         "wire touches only instance pins")
 ASSUMPTIONS = ["net classes come from a union-find over (path, wire) pairs joined where an outer pin's inner pin has a wire"]
-REQUIRED = {"starts_hwire": 2000, "starts_hpin": 4000, "relations_checked": 40000, "netlists_requeried_after_rewire": 50}
+REQUIRED = {"starts_hwire": 2000, "starts_hpin": 4000, "relations_checked": 40000, "netlists_requeried_after_rewire": 50,
+            "wired_port_pins_removed_and_put_back": 10}
 PROBES = {}
 KNOWN_KEYS = set()
 
@@ -69,6 +70,7 @@ def check(ctx, key, what, got, want, st):
 def rewire(n, rng):
     """Moves pins between wires of their definition (disconnect, connect elsewhere, connect open pins)."""
     moved = 0
+    rewire.put_back = 0
     for l in n.libraries:
         for d in l.definitions:
             wires = [w for c in d.cables for w in c.wires]
@@ -91,6 +93,7 @@ def rewire(n, rng):
                         # ... and the SAME pin object is put back (undo / the bit moved inside its bus); the instances of the cell
                         # get a fresh pin for it, wired outside again
                         port_.add_pin(p, position=rng.randint(0, len(port_.pins)))
+                        rewire.put_back += 1
                         for inst in list(d.references):
                             pd = inst.parent
                             if pd is None or p not in inst.pins:
@@ -153,6 +156,7 @@ def run_case(ctx, i, rng):
                               ex, probes.innermost_frame(ex), st))
             return
         ctx.count("rewired_pins", moved)
+        ctx.count("wired_port_pins_removed_and_put_back", rewire.put_back)
         r2 = check_netlist(ctx, i, rng, n, st, "after-rewire:")
         if r2 is None:
             return
